@@ -126,7 +126,7 @@ func record(rec string) {
 			st.names[nfd] = fmt.Sprintf("d%d", st.ndup)
 		}
 	}
-	if len(f) >= 3 && f[0] == "enter" && f[1] == "asyncWrite" { // the asynchronous write takes effect now
+	if len(f) >= 3 && f[0] == "enter" && (f[1] == "asyncWrite" || f[1] == "asyncWritev") { // the asynchronous write takes effect now
 		if n, err := strconv.Atoi(f[2]); err == nil {
 			if ci := st.conns[nameOf(n)]; ci != nil && len(asyncQ[ci.cid]) > 0 {
 				p := asyncQ[ci.cid][0]
@@ -453,6 +453,19 @@ func runHop(op, arg string, c gnet.Conn, ci *connInfo) string {
 		err := c.AsyncWrite(p, nil)
 		if ci != nil && err == nil {
 			ci.pendingAsync(p)
+		}
+		return "err=" + errName(err)
+	case "asyncwritev":
+		var bs [][]byte
+		var flat []byte
+		for _, h := range strings.Split(arg, ",") {
+			b := util.UnHex(h)
+			bs = append(bs, b)
+			flat = append(flat, b...)
+		}
+		err := c.AsyncWritev(bs, nil)
+		if ci != nil && err == nil {
+			ci.pendingAsync(flat)
 		}
 		return "err=" + errName(err)
 	case "wake":
@@ -908,12 +921,26 @@ func step(ws []string) string {
 			if err = c.AsyncWrite(p, nil); err == nil {
 				ci.pendingAsync(p)
 			}
+		case "writev":
+			var bs [][]byte
+			var flat []byte
+			for _, h := range strings.Split(ws[3], ",") {
+				b := util.UnHex(h)
+				bs = append(bs, b)
+				flat = append(flat, b...)
+			}
+			if err = c.AsyncWritev(bs, nil); err == nil {
+				ci.pendingAsync(flat)
+			}
 		case "wake":
 			err = c.Wake(nil)
 		case "close":
 			err = c.Close()
 		}
 		return "ok @@ err=" + errName(err)
+	case "threshold": // threshold <n>: the poller's high-priority threshold (1024 in production), so that its overflow path is reachable
+		st.loop.SetThreshold(int32(atoi(ws[1])))
+		return "ok"
 	case "stop":
 		// C01: a peer that keeps sending is never left with data that is not handed to OnTraffic - when the loop is
 		// idle in epoll_wait (the generator polls three times before it stops) everything sent on an open connection
